@@ -9,6 +9,7 @@ check has to follow both trees, so the three places are modelled here with a `Va
   (HEAD: only `if p.opcode <= 255`)                                                   → `Variant.extract`, `Variant.fromPacket`
 * `prereqExact` (D38) — `_unwire_wildcards` reads `_dl_type` / `_nw_proto` only where they are not wildcarded
   (`None` otherwise; HEAD: reads the raw field)                                       → `Variant.unwire`, `Variant.ofWire`
+* `tosDscp` (D36) — ToS reduced to its six DSCP bits in extraction and comparison            → `Variant.pktHeaders`, `Variant.mww`
 * `exactSig` (D26) — `is_wildcarded` is `self.wildcards & ~self._unwire_wildcards(0) & OFPFW_ALL != 0`: wildcard bits of fields
   that are ignored for lack of prerequisites do not count (HEAD: `self.wildcards & OFPFW_ALL != 0`)
                                                                                       → `Variant.isWildcarded`, `Variant.effectivePriority`
@@ -20,12 +21,17 @@ structure Variant where
   arpLow8 : Bool
   prereqExact : Bool
   exactSig : Bool
+  /-- repair D36 (`fixes/C04_D36_tos_dscp.diff`): `from_packet` assigns `p.tos & 0xfc`, `matches_with_wildcards` compares
+      `nw_tos & 0xfc` on both sides (HEAD: the full ToS byte in both places) -/
+  tosDscp : Bool := false
   deriving DecidableEq, Repr
 
 /-- `/repo` HEAD: none of the repairs -/
 def Variant.head : Variant := { arpLow8 := false, prereqExact := false, exactSig := false }
-/-- all three repairs applied -/
+/-- repairs D37, D38, D26 applied (`/repo` HEAD while D36 is open) -/
 def Variant.repaired : Variant := { arpLow8 := true, prereqExact := true, exactSig := true }
+/-- … and D36 -/
+def Variant.full : Variant := { Variant.repaired with tosDscp := true }
 
 namespace Variant
 variable (v : Variant) {α : Type}
@@ -55,8 +61,30 @@ def extract (specFrags : Bool) (p : PHdr) (inPort : Option Nat) : OHeaders := ex
 /-- `from_packet(packet, in_port, spec_frags=True)`, what `entry_for_packet` matches against -/
 def fromPacket (p : PHdr) (inPort : Nat) : OfMatch := fromHeaders (v.extract true p (some inPort))
 
+/-- `tos & 0xfc`: the six DSCP bits in place -/
+def dscpOf (tos : Nat) : Nat := tos / 4 * 4
+
+/-- a match as the comparison of variant `v` reads it: with repair D36 only the DSCP bits of nw_tos -/
+def dscpM (m : OfMatch) : OfMatch := if v.tosDscp then { m with nwTos := dscpOf m.nwTos } else m
+
+/-- `self.matches_with_wildcards(other, consider_other_wildcards)` of variant `v`.  (With repair D36 the `self == other` shortcut still
+    compares the raw values; it never changes the answer — `matchesWith_false` / `matchesWith_true` — so comparing the DSCP-reduced
+    pair is the same function.) -/
+def mww (c : Bool) (a b : OfMatch) : Bool := OfMatch.matchesWith c (v.dscpM a) (v.dscpM b)
+
+/-- what `from_packet(packet, in_port, spec_frags)` assigns, ToS included -/
+def pktHeaders (specFrags : Bool) (p : PHdr) (inPort : Option Nat) : OHeaders :=
+  let o := v.extract specFrags p inPort
+  if v.tosDscp then { o with nwTos := o.nwTos.map dscpOf } else o
+
+/-- `from_packet(packet, in_port, spec_frags=True)`, what `entry_for_packet` matches against -/
+def pktMatch (p : PHdr) (inPort : Nat) : OfMatch := fromHeaders (v.pktHeaders true p (some inPort))
+
+/-- does entry `e` accept a packet whose match is `pm` -/
+def accepts (pm : OfMatch) (e : Entry α) : Bool := v.mww false e.mtch pm
+
 /-- `entry_for_packet(packet, in_port)` -/
-def entryForPacket (tbl : Table α) (p : PHdr) (inPort : Nat) : Option (Entry α) := lookup tbl (v.fromPacket p inPort)
+def entryForPacket (tbl : Table α) (p : PHdr) (inPort : Nat) : Option (Entry α) := tbl.find? (v.accepts (v.pktMatch p inPort))
 
 /-- the answers to a sequence of `entry_for_packet` calls on one table with no table operation in between: the model keeps no state
     between lookups (the code must not either — a lookup cache, say, has to be invisible) -/
